@@ -1,7 +1,103 @@
-pub fn cmd_classify(_: &str) -> String { "TODO".into() }
-pub fn cmd_srep(_: &str) -> String { "TODO".into() }
-pub fn cmd_ltk(_: &str) -> String { "TODO".into() }
-pub fn cmd_cert(_: &str) -> String { "TODO".into() }
+use std::time::{Duration, UNIX_EPOCH};
+
+use roughenough::key::{LongTermKey, OnlineKey};
+use roughenough::request;
+use roughenough::{RtMessage, Tag};
+
+use crate::codec::render_err;
+use crate::crypto::oneshot_verify;
+use crate::merkle::version_of;
+use crate::util::{guarded, hex, unhex};
+
+/// classify <srvhex> <dgramhex> : request::nonce_from_request on a 64 KiB buffer, as the server does
+pub fn cmd_classify(arg: &str) -> String {
+    let p: Vec<&str> = arg.trim().split(' ').collect();
+    let srv = unhex(p[0]);
+    let d = unhex(p.get(1).copied().unwrap_or("-"));
+    let r = guarded(move || {
+        let mut buf = vec![0u8; 65536];
+        buf[..d.len()].copy_from_slice(&d);
+        request::nonce_from_request(&buf, d.len(), &srv)
+    });
+    match r {
+        None => "PANIC".into(),
+        Some(Ok((n, v))) => format!("OK {} {:?}", hex(&n), v),
+        Some(Err(e)) => format!("ERR {}", render_err(&e)),
+    }
+}
+
+/// srep <ver> <secs> <nanos> <roothex> : OnlineKey::make_srep at a chosen clock value
+pub fn cmd_srep(arg: &str) -> String {
+    let p: Vec<&str> = arg.trim().split(' ').collect();
+    let ver = version_of(p[0]);
+    let secs: u64 = p[1].parse().unwrap();
+    let nanos: u32 = p[2].parse().unwrap();
+    let root = unhex(p[3]);
+    let r = guarded(move || {
+        let mut ok = OnlineKey::new();
+        let dele = ok.make_dele();
+        let pubk = dele.get_field(Tag::PUBK).unwrap().to_vec();
+        let m = ok.make_srep(ver, UNIX_EPOCH + Duration::new(secs, nanos), &root);
+        let sig = m.get_field(Tag::SIG).unwrap().to_vec();
+        let srep = m.get_field(Tag::SREP).unwrap().to_vec();
+        let mut signed = ver.sign_prefix().to_vec();
+        signed.extend_from_slice(&srep);
+        let okv = oneshot_verify(&pubk, &signed, &sig) == Some(true);
+        format!("OK SREP={} NF={} SIGOK={}", hex(&srep), m.num_fields(), okv as u8)
+    });
+    r.unwrap_or_else(|| "PANIC".into())
+}
+
+/// ltk <seedhex> : LongTermKey::new(seed) -> public key and SRV value
+pub fn cmd_ltk(arg: &str) -> String {
+    let seed = unhex(arg.trim());
+    let r = guarded(move || {
+        let k = LongTermKey::new(&seed);
+        format!("OK PK={} SRV={}", hex(&k.public_key()), hex(k.srv_value()))
+    });
+    r.unwrap_or_else(|| "PANIC".into())
+}
+
+/// cert <seedhex> <ver,ver,...> : one LongTermKey certifying a fresh OnlineKey per listed version,
+/// in order, with the SAME signer object (as Server::new does for its two responders)
+pub fn cmd_cert(arg: &str) -> String {
+    let p: Vec<&str> = arg.trim().split(' ').collect();
+    let seed = unhex(p[0]);
+    let vers: Vec<String> = p[1].split(',').map(|s| s.to_string()).collect();
+    let r = guarded(move || {
+        let mut k = LongTermKey::new(&seed);
+        let pk = k.public_key();
+        let mut out = Vec::new();
+        for v in &vers {
+            let ver = version_of(v);
+            let other = match ver {
+                roughenough::version::Version::Google => roughenough::version::Version::RfcDraft13,
+                _ => roughenough::version::Version::Google,
+            };
+            let ok = OnlineKey::new();
+            let cert = k.make_cert(&ver, &ok);
+            let sig = cert.get_field(Tag::SIG).unwrap().to_vec();
+            let dele = cert.get_field(Tag::DELE).unwrap().to_vec();
+            let mut own = ver.dele_prefix().to_vec();
+            own.extend_from_slice(&dele);
+            let mut oth = other.dele_prefix().to_vec();
+            oth.extend_from_slice(&dele);
+            let dm = RtMessage::from_bytes(&dele).unwrap();
+            out.push(format!(
+                "NF={} DELE=[MINT:{},MAXT:{},PUBKLEN:{}] OWN={} OTHER={}",
+                cert.num_fields(),
+                hex(dm.get_field(Tag::MINT).unwrap()),
+                hex(dm.get_field(Tag::MAXT).unwrap()),
+                dm.get_field(Tag::PUBK).unwrap().len(),
+                (oneshot_verify(&pk, &own, &sig) == Some(true)) as u8,
+                (oneshot_verify(&pk, &oth, &sig) == Some(true)) as u8
+            ));
+        }
+        format!("OK {}", out.join(" | "))
+    });
+    r.unwrap_or_else(|| "PANIC".into())
+}
+
 pub fn cmd_envelope(_: &str) -> String { "TODO".into() }
 pub fn cmd_envdec(_: &str) -> String { "TODO".into() }
 pub fn cmd_stats(_: &str) -> String { "TODO".into() }
